@@ -15,7 +15,8 @@ rule = ("scripts = 'p fmt <description of the style> 255 255' then groups of 'p 
         "shape with <= 5 nodes (thorough: 6) x 4 name patterns (distinct / all equal / alternating / digits and dashes) x 4 value patterns x the "
         "styles that can express it (brace: all; sep, bar: options + one level of sections; enc: option lists) x 5 decorations (the fifth glues a comment directly to section names / braces); stream 2 = random forests (depth <= 5, fan-out <= 5, names "
         "up to 300 bytes, values of 1..40 bytes and of 249..257 bytes, thorough: 65534..65537 bytes, values that "
-        "need quoting, embedded quotes/backslashes/line feeds/high bytes); stream 3 = names that contain the path "
+        "need quoting, embedded quotes/backslashes/line feeds/high bytes); stream 4 = 8 format descriptions that name their escape characters x values containing the other quote "
+        "characters (text written by this module, expectation given with 'p expect'); stream 3 = names that contain the path "
         "separator '.' (known finding dot-in-name); non-trivial = the real code returned a "
         "tree with at least one section that has children or one value, counted per distinct script")
 assumptions = [
@@ -219,8 +220,53 @@ def dotted(tier):
     return out
 
 
+# format descriptions that name their escape (quote) characters themselves: only the named ones quote
+ONEQUOTE = [
+    # (description, layout, named escape characters)
+    ("{*} = !# `", "brace", "`"),
+    ("{*} =;!# `", "semi", "`"),
+    ("[ ] = # `", "sep", "`"),
+    ("|x| = # `", "bar", "`"),
+    ("{*} = # \"", "brace", "\""),
+    ("{*} = # '", "brace", "'"),
+    ("{*} = # `'", "brace", "`'"),
+    ("{*} = # \"'`", "brace", "\"'`"),
+]
+QVALUES = ["it's here", "say \"hi\"", "a`b", "'", "\"", "x'y\"z", "don't 'quote'", "plain"]
+
+
+def _qwrite(layout, items):
+    """items: [(name, value)] top level options, then one section `s` with the same options"""
+    eol = ";\n" if layout == "semi" else "\n"
+    opts = "".join("%s = %s%s" % (n, v, eol) for n, v in items)
+    if layout in ("brace", "semi"):
+        return opts + "s {\n" + opts + "}\n"
+    if layout == "sep":
+        return opts + "[s]\n" + opts
+    return opts + "|s\n" + opts
+
+
+def onequote(tier, seed):
+    """the reference text is written here (plain `name = value` lines): a value that contains none of the NAMED
+    escape characters, no `#`, `;` and no blank at its ends is read back verbatim"""
+    out = []
+    r = gen.rng(id, tier, seed, "onequote")
+    for desc, layout, esc in ONEQUOTE:
+        vals = [v for v in QVALUES if not any(c in v for c in esc)]
+        for k in range(4 if tier == "quick" else 16):
+            pick = [r.choice(vals) for _ in range(r.choice([1, 2, 3]))] if k else vals
+            items = [("k%d" % i, v) for i, v in enumerate(pick)]
+            text = _qwrite(layout, items)
+            leaves = [(n.encode(), v.encode("latin-1"), None) for n, v in items]
+            forest = leaves + [(b"s", None, leaves)]
+            lines = ["p fmt %s 255 255" % hx(desc), "p root .", "p input " + hx(text),
+                     "p expect " + forest_text(forest), "p node", "p end"]
+            out.append(("quote:%s:%d" % (hx(desc), k), lines))
+    return out
+
+
 def scripts(tier, seed, scale=1):
-    return exhaustive(tier) + random_forests(tier, seed, scale) + dotted(tier)
+    return exhaustive(tier) + random_forests(tier, seed, scale) + dotted(tier) + onequote(tier, seed)
 
 
 def nontrivial(script, c_lines):
